@@ -92,7 +92,7 @@ func KeySpecs() []*Spec {
 type sizeB struct{ mn, mx *int64 }
 
 func sizeBounds() []sizeB {
-	return []sizeB{{nil, nil}, {I64(1), nil}, {nil, I64(2)}, {I64(1), I64(2)}, {I64(0), I64(0)}, {I64(2), I64(1)}}
+	return []sizeB{{nil, nil}, {I64(1), nil}, {nil, I64(2)}, {I64(1), I64(2)}, {I64(0), I64(0)}, {I64(2), I64(1)}, {I64(2), nil}}
 }
 
 // MapObjA / MapObjB are the two map-based objects used as members and items.
@@ -162,6 +162,18 @@ func OneOfAllSpecs() []*Spec {
 	out = append(out, &Spec{Kind: KOneOfStr, Discriminator: "_type", Members: []Member{
 		{KeyS: "a", KeyI: 1, Type: MapObjTyped("Typed")}, {KeyS: "b", KeyI: 2, Type: MapObjB("B")},
 	}})
+	// a member under the zero value of the key type (0 / the empty string): present, not missing
+	for _, k := range []Kind{KOneOfStr, KOneOfInt} {
+		for _, inl := range []bool{false, true} {
+			a, b := MapObjA("A"), MapObjB("B")
+			if inl {
+				a, b = withDiscriminator(a, "_type", k), withDiscriminator(b, "_type", k)
+			}
+			out = append(out, &Spec{Kind: k, Discriminator: "_type", Inlined: inl, Members: []Member{
+				{KeyS: "", KeyI: 0, Type: a}, {KeyS: "b", KeyI: 2, Type: b},
+			}})
+		}
+	}
 	return out
 }
 
@@ -323,6 +335,22 @@ func Depth2(thorough bool) []*Spec {
 		}})
 	}
 	if thorough {
+		// every depth-1 composite (not only the representatives above) inside each of the three containers
+		used := map[string]bool{}
+		for _, in := range inner {
+			used[in.String()] = true
+		}
+		for _, in := range Depth1() {
+			if used[in.String()] {
+				continue
+			}
+			used[in.String()] = true
+			out = append(out, wrap3(in, "Wrap")...)
+		}
+		// depth 3: every depth-2 spec of the quick tier inside each of the three containers
+		for _, in := range Depth2(false) {
+			out = append(out, wrap3(in, "Wrap3")...)
+		}
 		// depth 3: the combinations the properties name
 		oo := OneOfSpecs()
 		for _, o := range oo {
@@ -333,6 +361,18 @@ func Depth2(thorough bool) []*Spec {
 		out = append(out, &Spec{Kind: KObject, ID: "Deep", Props: []Prop{{Name: "l", Type: &Spec{Kind: KList, Item: ShapeSpecs()[5]}}}})
 	}
 	return out
+}
+
+// wrap3 puts a spec into a list, a string-keyed map and a two-property object.
+func wrap3(in *Spec, id string) []*Spec {
+	return []*Spec{
+		{Kind: KList, Item: in.Clone(), Max: I64(2)},
+		{Kind: KMap, Key: &Spec{Kind: KString, Min: I64(1)}, Val: in.Clone()},
+		{Kind: KObject, ID: id, Props: []Prop{
+			{Name: "inner", Type: in.Clone(), Required: true},
+			{Name: "tag", Type: &Spec{Kind: KString}, Default: Str("\"t\"")},
+		}},
+	}
 }
 
 // Universe returns U_d.
